@@ -127,6 +127,7 @@ type JobSpec struct {
 	SolverTimeoutMs int
 	SmallSize       int64
 	Label           string
+	MaxWallMs       int64 // stop exploring new paths of this job after this much wall time
 }
 
 func (s JobSpec) Name() string {
@@ -183,6 +184,8 @@ type Job struct {
 	SolverErrors  []string
 	Wall          time.Duration
 	pathLimitHit  bool
+	wallLimitHit  bool
+	started       time.Time
 	allocBudget   int64
 	start         time.Time
 }
@@ -224,6 +227,9 @@ func (j *Job) Inconclusive() []string {
 	}
 	if j.pathLimitHit {
 		r = append(r, fmt.Sprintf("path limit %d hit", j.Spec.MaxPaths))
+	}
+	if j.wallLimitHit {
+		r = append(r, fmt.Sprintf("wall-time limit %d ms hit after %d paths", j.Spec.MaxWallMs, j.Paths))
 	}
 	if j.UnknownAssert > 0 {
 		r = append(r, fmt.Sprintf("%d assertion queries answered unknown", j.UnknownAssert))
@@ -320,6 +326,15 @@ func (s *scheduler) next() (*Job, []decision) {
 					j.mu.Unlock()
 					continue
 				}
+				if j.started.IsZero() {
+					j.started = time.Now()
+				}
+				if j.Spec.MaxWallMs > 0 && time.Since(j.started) > time.Duration(j.Spec.MaxWallMs)*time.Millisecond {
+					j.wallLimitHit = true
+					j.queue = nil
+					j.mu.Unlock()
+					continue
+				}
 				p := j.queue[len(j.queue)-1]
 				j.queue = j.queue[:len(j.queue)-1]
 				j.inflight++
@@ -345,6 +360,9 @@ func (s *scheduler) finish(j *Job) {
 	j.inflight--
 	if j.inflight == 0 && len(j.queue) == 0 {
 		j.Wall = time.Since(j.start)
+		if !j.started.IsZero() {
+			j.Wall = time.Since(j.started)
+		}
 	}
 	j.mu.Unlock()
 	s.wake()
